@@ -518,7 +518,8 @@ static void GC_Set(var self, var key, var val) {
   gc->minptr = (uintptr_t)key < gc->minptr ? (uintptr_t)key : gc->minptr;
   GC_Resize_More(gc);
   GC_Set_Ptr(gc, key, (bool)c_int(val));
-  if (gc->nitems > gc->mitems) {
+  /* not while a sweep is finalising its pending objects (a destructor that allocates) */
+  if (gc->nitems > gc->mitems and gc->freelist is NULL) {
     GC_Mark(gc);
     GC_Sweep(gc);
   }
